@@ -189,9 +189,47 @@ def _generator(repo):
     s0, s1 = comp(sh.elts[0], 0), comp(sh.elts[1], 1)
     if s0 != s1: raise Refuse('zernike_coordinates: the two shift components are built differently')
     src = ast.unparse(ZC).replace(' ', '')
-    for needle in ('rr,cc=lentil.helper.mesh(mask.shape,shift)', 'rho=r/np.max(r*mask)', 'r=np.abs(rr+1j*cc)',
-                   'angle=(90-rotate)*np.pi/180', 'theta=np.angle(-rr*np.exp(1j*angle)+1j*cc*np.exp(1j*angle))'):
+    for needle in ('rr,cc=lentil.helper.mesh(mask.shape,shift)', 'rho=r/np.max(r*mask)', 'r=np.abs(rr+1j*cc)'):
         if needle not in src.replace('(rr,cc)', 'rr,cc'): raise Refuse('zernike_coordinates: statement changed: ' + needle)
+    # ---- zernike_coordinates: `angle = …` (real expression in rotate, np.pi) and `theta = np.angle(<complex expression>)` TRANSLATED:
+    # the complex argument is split symbolically into real and imaginary part over rr, cc, ca = cos(angle), sa = sin(angle)
+    zasg = {ast.unparse(x.targets[0]): x.value for x in ZC.body if isinstance(x, ast.Assign) and len(x.targets) == 1}
+    if 'angle' not in zasg or 'theta' not in zasg: raise Refuse('zernike_coordinates: angle / theta assignment not found')
+    def areal(e):
+        t = ast.unparse(e)
+        if t == 'rotate': return 'rotate'
+        if t in ('np.pi', 'math.pi'): return 'pi'
+        if isinstance(e, ast.Constant) and isinstance(e.value, (int, float)) and not isinstance(e.value, bool) and e.value == int(e.value) and e.value >= 0:
+            return f'(({int(e.value)} : Nat) : K)'
+        if isinstance(e, ast.UnaryOp) and isinstance(e.op, ast.USub): return f'(-{areal(e.operand)})'
+        if isinstance(e, ast.BinOp) and type(e.op) in (ast.Add, ast.Sub, ast.Mult, ast.Div):
+            return f"({areal(e.left)} {({ast.Add: '+', ast.Sub: '-', ast.Mult: '*', ast.Div: '/'})[type(e.op)]} {areal(e.right)})"
+        raise Refuse('zernike_coordinates: angle expression ' + t)
+    angle_l = areal(zasg['angle'])
+    def neg(a): return None if a is None else f'(-{a})'
+    def add(a, b): return b if a is None else a if b is None else f'({a} + {b})'
+    def sub(a, b): return neg(b) if a is None else a if b is None else f'({a} - {b})'
+    def mul(a, b): return None if a is None or b is None else b if a == '1' else a if b == '1' else f'({a} * {b})'
+    def cx(e):
+        t = ast.unparse(e).replace(' ', '')
+        if isinstance(e, ast.Name) and e.id in ('rr', 'cc'): return (e.id, None)
+        if isinstance(e, ast.Constant) and isinstance(e.value, complex) and e.value == 1j: return (None, '1')
+        if isinstance(e, ast.Call) and ast.unparse(e.func) == 'np.exp' and len(e.args) == 1 and not e.keywords \
+                and ast.unparse(e.args[0]).replace(' ', '') in ('1j*angle', 'angle*1j'): return ('ca', 'sa')
+        if isinstance(e, ast.UnaryOp) and isinstance(e.op, ast.USub):
+            a = cx(e.operand); return (neg(a[0]), neg(a[1]))
+        if isinstance(e, ast.BinOp) and isinstance(e.op, (ast.Add, ast.Sub)):
+            a, b = cx(e.left), cx(e.right); f = add if isinstance(e.op, ast.Add) else sub
+            return (f(a[0], b[0]), f(a[1], b[1]))
+        if isinstance(e, ast.BinOp) and isinstance(e.op, ast.Mult):
+            a, b = cx(e.left), cx(e.right)
+            return (sub(mul(a[0], b[0]), mul(a[1], b[1])), add(mul(a[0], b[1]), mul(a[1], b[0])))
+        raise Refuse('zernike_coordinates: complex expression ' + t)
+    th = zasg['theta']
+    if not (isinstance(th, ast.Call) and ast.unparse(th.func) == 'np.angle' and len(th.args) == 1 and not th.keywords):
+        raise Refuse('zernike_coordinates: theta is not np.angle(<expression>)')
+    th_re, th_im = cx(th.args[0])
+    if th_re is None or th_im is None: raise Refuse('zernike_coordinates: theta argument has a vanishing real or imaginary part')
     # ---- zernike_index: row search argument, k, r, sign, row seeds, loop count, append step, final product
     ZI = _fn(mod, 'zernike_index')
     ib = [x for x in ZI.body if not (isinstance(x, ast.Expr) and isinstance(x.value, ast.Constant))]
@@ -267,6 +305,11 @@ def _generator(repo):
             f'def zCenter (n : Int) : Int := {center_l}\n\n'
             '/-- `zernike_coordinates`: default shift per axis, `centroid[k] - center[k]` (`c` = centroid coordinate) -/\n'
             f'def zShiftAxis {{K : Type}} [Sub K] [Add K] [IntCast K] (c : K) (n : Int) : K := {s0}\n\n'
+            '/-- `zernike_coordinates`: `angle` (radians) from `rotate` (degrees); `pi` = np.pi -/\n'
+            f'def zAngle {{K : Type}} [Add K] [Sub K] [Mul K] [Div K] [Neg K] [NatCast K] (rotate pi : K) : K := {angle_l}\n\n'
+            '/-- `zernike_coordinates`: (real part, imaginary part) of the argument of `np.angle` in `theta = …`; `ca`, `sa` = cos and sin of `angle`\n'
+            '(`np.exp(1j*angle)`), complex products expanded symbolically -/\n'
+            f'def zThetaArg {{K : Type}} [Add K] [Sub K] [Mul K] [Neg K] (rr cc ca sa : K) : K × K := ({th_re}, {th_im})\n\n'
             'def fact : Nat → Nat\n  | 0 => 1\n  | n + 1 => (n + 1) * fact n\n\n'
             '/-- `R`: the guard `(n - m) & 1` (odd difference: the function returns 0) -/\n'
             f'def radialOdd (n m : Nat) : Bool := {odd}\n\n'
@@ -290,6 +333,6 @@ def _generator(repo):
     return lean, ['R: guard, term count, coefficient numerator/denominator and exponent translated; zernike: decision tree and leaf products translated',
                   'zernike: `m, n = zernike_index(index)`, bool cast of the mask and the unprocessed return checked structurally; the coordinate-source block (rho/theta None) translated; the body consists of exactly: cast, that block, index call, tree, return',
                   'zernike_index: row-search argument, k, r, sign rule, row seeds, loop count and append step translated; guard j < 1, n == 0 branch, m = row_m[r]*sign matched',
-                  'zernike_coordinates: bool cast of the mask matched as first statement; centre index and default shift translated; mesh call, r, rho, angle and theta statements matched']
+                  'zernike_coordinates: bool cast of the mask matched as first statement; centre index and default shift translated; angle (degrees -> radians) and the complex argument of theta = np.angle(…) translated (split into real and imaginary part); mesh call, r and rho statements matched']
 
 MODULES = [{'name': 'ZernikeR', 'src': 'lentil/zernike.py', 'generator': _generator, 'props': ['C11', 'C12']}]
